@@ -606,6 +606,11 @@ fn lazy(out: &mut dyn Write, r: &mut ChaCha20Rng, seqs: &[String]) {
                         emit(out, ev);
                     }
                 }
+                // the ORIGINAL variable (of which `v` was a clone) must still denote the original element, whatever was
+                // done to the clone (read for element-allocated variables only: reading costs them no constraints)
+                if let (Ok(v0), true) = (&var, from == "element") {
+                    emit(out, json!({"k":"lazy_orig","elt": elt_value(v0)}));
+                }
                 cs.finalize();
                 let sat = cs.is_satisfied().unwrap_or(false);
                 emit(out, json!({"k":"lazy_end","sat":sat,"nc":cs.num_constraints()}));
